@@ -22,8 +22,10 @@ import (
 func vShift(a []vM, dt, dl int) []vM {
 	o := make([]vM, len(a))
 	for i, m := range a {
-		m.ST += dt
-		m.ET += dt
+		if !strings.HasPrefix(m.Key, "Copyright/") {
+			m.ST += dt
+			m.ET += dt
+		}
 		m.SL += dl
 		m.EL += dl
 		o[i] = m
@@ -152,7 +154,9 @@ func TestVerifC07(t *testing.T) {
 			norm := make([][]vM, len(pls)) // shifted back to X's own coordinates
 			for i, p := range pls {
 				in := []byte(p.pre + x + p.post)
-				res[i] = vLic(c.Match(in))
+				// all matches, Copyright pseudo-matches included (their token indices are 0 by
+				// construction and are not shifted)
+				res[i] = vAll(c.Match(in))
 				dt := len(strings.Fields(p.pre))
 				dl := strings.Count(p.pre, "\n")
 				norm[i] = vShift(res[i], -dt, -dl)
